@@ -8,6 +8,7 @@ import (
 	"os"
 	"os/exec"
 	"strings"
+	"sync"
 	"time"
 
 	webp "github.com/deepteams/webp"
@@ -15,6 +16,9 @@ import (
 	"github.com/deepteams/webp/internal/zzverif/choice"
 	"github.com/deepteams/webp/internal/zzverif/fw"
 	"github.com/deepteams/webp/internal/zzverif/imgs"
+	"github.com/deepteams/webp/internal/zzverif/riffwalk"
+	"github.com/deepteams/webp/internal/zzverif/vp8gen"
+	"github.com/deepteams/webp/internal/zzverif/vp8lgen"
 	"github.com/deepteams/webp/internal/zzverif/vsync"
 )
 
@@ -23,56 +27,131 @@ import (
 
 type c11Call struct {
 	name string
-	run  func() []byte
+	mk   func() func() []byte // builds the call (pictures, files) on first use
+	fn   func() []byte
+}
+
+func (c *c11Call) build() {
+	if c.fn == nil {
+		c.fn = c.mk()
+	}
+}
+
+func (c *c11Call) run() []byte {
+	c.build()
+	return c.fn()
 }
 
 func c11Alphabet(seed int64) []c11Call {
 	pin()
 	var out []c11Call
-	add := func(name string, f func() []byte) { out = append(out, c11Call{name, f}) }
+	add := func(name string, mk func() func() []byte) { out = append(out, c11Call{name: name, mk: mk}) }
 	smooth := func(w, h int) image.Image { return imgs.Make(w, h, "gradient", "opaque", seed) }
 	noise := func(w, h int) image.Image { return imgs.Make(w, h, "noise", "opaque", seed) }
 	ll := func(m, q int) *webp.EncoderOptions {
 		return &webp.EncoderOptions{Lossless: true, Method: m, Quality: float32(q)}
 	}
-	add("lossless 64x64 smooth q100 m4", encBytes(smooth(64, 64), ll(4, 100)))
-	add("lossless 64x64 smooth q100 m6", encBytes(smooth(64, 64), ll(6, 100)))
-	add("lossless 64x64 smooth q75 m4", encBytes(smooth(64, 64), ll(4, 75)))
-	add("lossy 48x48 noise defaults", encBytes(noise(48, 48), lossyOpts(nil)))
-	add("lossy 48x48 noise seg1 part3 sns0 filter0", encBytes(noise(48, 48), lossyOpts(func(o *webp.EncoderOptions) {
-		o.Segments, o.Partitions, o.SNSStrength, o.FilterStrength = 1, 3, 0, 0
-	})))
-	add("lossy 40x40 noise (same macroblock count)", encBytes(noise(40, 40), lossyOpts(nil)))
-	add("lossy 64x64 gradient (grow)", encBytes(smooth(64, 64), lossyOpts(nil)))
-	add("lossy 16x16 noise (shrink)", encBytes(noise(16, 16), lossyOpts(nil)))
-	add("lossy 48x48 noise method 2", encBytes(noise(48, 48), lossyOpts(func(o *webp.EncoderOptions) { o.Method = 2 })))
-	add("lossy 48x48 noise method 3", encBytes(noise(48, 48), lossyOpts(func(o *webp.EncoderOptions) { o.Method = 3 })))
-	add("lossy 48x48 noise method 6 q30", encBytes(noise(48, 48), lossyOpts(func(o *webp.EncoderOptions) { o.Method = 6; o.Quality = 30 })))
-	add("lossy+alpha 48x48", encBytes(imgs.Make(48, 48, "noise", "agradient", seed), lossyOpts(nil)))
-	add("lossy+alpha 40x40 dithered", encBytes(imgs.Make(40, 40, "gradient", "anoise", seed), lossyOpts(func(o *webp.EncoderOptions) { o.Preprocessing = 2 })))
-	add("lossy 48x48 YCbCr source", encBytes(imgs.As(imgs.Make(48, 48, "gradient", "opaque", seed), "YCbCr"), lossyOpts(nil)))
-	add("lossy 48x48 generic source dithered", encBytes(imgs.As(imgs.Make(48, 48, "noise", "opaque", seed), "generic"), lossyOpts(func(o *webp.EncoderOptions) { o.Preprocessing = 2 })))
-	add("lossy 48x48 sharp yuv", encBytes(noise(48, 48), lossyOpts(func(o *webp.EncoderOptions) { o.UseSharpYUV = true })))
-	add("lossless 16x16 4 colours", encBytes(imgs.Make(16, 16, "c4", "opaque", seed), ll(4, 75)))
-	add("lossless 40x40 noise", encBytes(noise(40, 40), ll(4, 75)))
-	add("lossless 8x8 noise alpha", encBytes(imgs.Make(8, 8, "noise", "agradient", seed), ll(4, 75)))
-	fLossy := mustEncode(noise(48, 48), lossyOpts(nil))
-	fLossyA := mustEncode(imgs.Make(40, 40, "noise", "agradient", seed), lossyOpts(nil))
-	fLL := mustEncode(imgs.Make(40, 40, "c16", "binary", seed), ll(4, 75))
-	fLLs := mustEncode(imgs.Make(16, 16, "gradient", "opaque", seed), ll(4, 75))
-	add("decode lossy 48x48", decPix(fLossy))
-	add("decode lossy+alpha 40x40", decPix(fLossyA))
-	add("decode lossless 40x40", decPix(fLL))
-	add("decode lossless 16x16", decPix(fLLs))
-	add("animation encode 2 frames 16x16", func() []byte {
-		var buf bytes.Buffer
-		enc := animation.NewEncoder(&buf, 16, 16, &animation.EncodeOptions{Lossless: true, Quality: 75})
-		enc.AddFrame(imgs.Make(16, 16, "c4", "opaque", seed), 40*time.Millisecond)
-		enc.AddFrame(imgs.Make(16, 16, "c4", "binary", seed), 40*time.Millisecond)
-		if err := enc.Close(); err != nil {
-			return []byte("error: " + err.Error())
+	add("lossless 64x64 smooth q100 m4", func() func() []byte { return encBytes(smooth(64, 64), ll(4, 100)) })
+	add("lossless 64x64 smooth q100 m6", func() func() []byte { return encBytes(smooth(64, 64), ll(6, 100)) })
+	add("lossless 64x64 smooth q75 m4", func() func() []byte { return encBytes(smooth(64, 64), ll(4, 75)) })
+	add("lossy 48x48 noise defaults", func() func() []byte { return encBytes(noise(48, 48), lossyOpts(nil)) })
+	add("lossy 48x48 noise seg1 part3 sns0 filter0", func() func() []byte {
+		return encBytes(noise(48, 48), lossyOpts(func(o *webp.EncoderOptions) {
+			o.Segments, o.Partitions, o.SNSStrength, o.FilterStrength = 1, 3, 0, 0
+		}))
+	})
+	add("lossy 40x40 noise (same macroblock count)", func() func() []byte { return encBytes(noise(40, 40), lossyOpts(nil)) })
+	add("lossy 64x64 gradient (grow)", func() func() []byte { return encBytes(smooth(64, 64), lossyOpts(nil)) })
+	add("lossy 16x16 noise (shrink)", func() func() []byte { return encBytes(noise(16, 16), lossyOpts(nil)) })
+	add("lossy 48x48 noise method 2", func() func() []byte {
+		return encBytes(noise(48, 48), lossyOpts(func(o *webp.EncoderOptions) { o.Method = 2 }))
+	})
+	add("lossy 48x48 noise method 3", func() func() []byte {
+		return encBytes(noise(48, 48), lossyOpts(func(o *webp.EncoderOptions) { o.Method = 3 }))
+	})
+	add("lossy 48x48 noise method 6 q30", func() func() []byte {
+		return encBytes(noise(48, 48), lossyOpts(func(o *webp.EncoderOptions) { o.Method = 6; o.Quality = 30 }))
+	})
+	add("lossy+alpha 48x48", func() func() []byte { return encBytes(imgs.Make(48, 48, "noise", "agradient", seed), lossyOpts(nil)) })
+	add("lossy+alpha 40x40 dithered", func() func() []byte {
+		return encBytes(imgs.Make(40, 40, "gradient", "anoise", seed), lossyOpts(func(o *webp.EncoderOptions) { o.Preprocessing = 2 }))
+	})
+	add("lossy 48x48 YCbCr source", func() func() []byte {
+		return encBytes(imgs.As(imgs.Make(48, 48, "gradient", "opaque", seed), "YCbCr"), lossyOpts(nil))
+	})
+	add("lossy 48x48 generic source dithered", func() func() []byte {
+		return encBytes(imgs.As(imgs.Make(48, 48, "noise", "opaque", seed), "generic"), lossyOpts(func(o *webp.EncoderOptions) { o.Preprocessing = 2 }))
+	})
+	add("lossy 48x48 sharp yuv", func() func() []byte {
+		return encBytes(noise(48, 48), lossyOpts(func(o *webp.EncoderOptions) { o.UseSharpYUV = true }))
+	})
+	add("lossless 16x16 4 colours", func() func() []byte { return encBytes(imgs.Make(16, 16, "c4", "opaque", seed), ll(4, 75)) })
+	add("lossless 40x40 noise", func() func() []byte { return encBytes(noise(40, 40), ll(4, 75)) })
+	add("lossless 8x8 noise alpha", func() func() []byte { return encBytes(imgs.Make(8, 8, "noise", "agradient", seed), ll(4, 75)) })
+	fLossyF := sync.OnceValue(func() []byte { return mustEncode(noise(48, 48), lossyOpts(nil)) })
+	fLossyAF := sync.OnceValue(func() []byte { return mustEncode(imgs.Make(40, 40, "noise", "agradient", seed), lossyOpts(nil)) })
+	fLLF := sync.OnceValue(func() []byte { return mustEncode(imgs.Make(40, 40, "c16", "binary", seed), ll(4, 75)) })
+	fLLsF := sync.OnceValue(func() []byte { return mustEncode(imgs.Make(16, 16, "gradient", "opaque", seed), ll(4, 75)) })
+	add("decode lossy 48x48", func() func() []byte { return decPix(fLossyF()) })
+	add("decode lossy+alpha 40x40", func() func() []byte { return decPix(fLossyAF()) })
+	add("decode lossless 40x40", func() func() []byte { return decPix(fLLF()) })
+	add("decode lossless 16x16", func() func() []byte { return decPix(fLLsF()) })
+	// decodes of generator-made files: header fields an encoder never writes must not
+	// survive in a recycled decoder (loop-filter deltas, segment data, probabilities, palettes, caches)
+	vp := func(name string, p vp8Preset) {
+		f, _ := vp8gen.Generate(p, seed)
+		add("decode vp8gen "+name, func() func() []byte { return decPix(riffwalk.RIFF(riffwalk.ChunkBytes("VP8 ", f.Encode()))) })
+	}
+	vp("lf-deltas updated", vp8Preset{"dims": 4, "coeffs": 7, "filter-level": 3, "lf-delta": 2, "ymode": 6})
+	vp("lf-deltas on, not updated", vp8Preset{"dims": 4, "coeffs": 7, "filter-level": 3, "lf-delta": 1, "ymode": 6})
+	vp("segments abs data + map", vp8Preset{"dims": 4, "coeffs": 7, "filter-level": 2, "segments": 3})
+	vp("segments map only", vp8Preset{"dims": 4, "coeffs": 7, "filter-level": 2, "segments": 1})
+	vp("segments on, no map no data", vp8Preset{"dims": 4, "coeffs": 7, "filter-level": 2, "segments": 4})
+	vp("prob updates all + skip", vp8Preset{"dims": 4, "coeffs": 9, "prob-updates": 3, "skip": 1})
+	vp("plain 4x4 modes simple filter", vp8Preset{"dims": 4, "coeffs": 8, "ymode": 5, "filter-level": 4, "filter-simple": 1, "sharpness": 2})
+	ll2 := func(name string, p presetPicker) {
+		st, _ := vp8lgen.Generate(p, seed)
+		add("decode vp8lgen "+name, func() func() []byte { return decPix(riffwalk.RIFF(riffwalk.ChunkBytes("VP8L", st))) })
+	}
+	ll2("palette 17 with indices beyond", presetPicker{"dims": 9, "transforms": tOrder(3), "palette-size": 6, "index-beyond-palette": 1})
+	ll2("palette 4 packed + predictor", presetPicker{"dims": 9, "transforms": tOrder(3, 0)})
+	ll2("cache 11 bits + meta sparse", presetPicker{"dims": 9, "main-cache": 4, "meta": 3})
+	ll2("cache 2 bits unwritten slots", presetPicker{"dims": 8, "main-cache": 6})
+	ll2("all four transforms", presetPicker{"dims": 9, "transforms": tOrder(2, 0, 1, 3)})
+	// calls that FAIL must leave nothing behind in the recycled decoder either
+	cut := func(b []byte, n int) []byte {
+		// cut the payload of the last chunk by n bytes and fix the sizes, so that the container is
+		// consistent and the bitstream decoder itself runs out of data
+		f, err := riffwalk.Parse(b)
+		if err != nil || len(f.Chunks) == 0 {
+			return b[:len(b)-n]
 		}
-		return buf.Bytes()
+		last := f.Chunks[len(f.Chunks)-1]
+		if last.Size <= n+12 {
+			return b[:len(b)-n]
+		}
+		var body [][]byte
+		for _, c := range f.Chunks[:len(f.Chunks)-1] {
+			body = append(body, riffwalk.ChunkBytes(c.FourCC, c.Data))
+		}
+		body = append(body, riffwalk.ChunkBytes(last.FourCC, last.Data[:last.Size-n]))
+		return riffwalk.RIFF(body...)
+	}
+	add("decode lossy 48x48 cut inside the tokens (fails)", func() func() []byte { return decPix(cut(fLossyF(), len(fLossyF())/3)) })
+	add("decode lossy 48x48 last 2 bytes missing (may fail)", func() func() []byte { return decPix(cut(fLossyF(), 2)) })
+	add("decode lossless 40x40 cut in the middle (fails)", func() func() []byte { return decPix(cut(fLLF(), len(fLLF())/2)) })
+	add("decode lossy+alpha 40x40 cut inside the tokens (fails)", func() func() []byte { return decPix(cut(fLossyAF(), len(fLossyAF())/4)) })
+	add("animation encode 2 frames 16x16", func() func() []byte {
+		return func() []byte {
+			var buf bytes.Buffer
+			enc := animation.NewEncoder(&buf, 16, 16, &animation.EncodeOptions{Lossless: true, Quality: 75})
+			enc.AddFrame(imgs.Make(16, 16, "c4", "opaque", seed), 40*time.Millisecond)
+			enc.AddFrame(imgs.Make(16, 16, "c4", "binary", seed), 40*time.Millisecond)
+			if err := enc.Close(); err != nil {
+				return []byte("error: " + err.Error())
+			}
+			return buf.Bytes()
+		}
 	})
 	return out
 }
@@ -151,7 +230,7 @@ func c11Exec(calls []c11Call, refs []string, hist []int, c *choice.Ctx, allReuse
 func init() {
 	fw.Register(&fw.Check{
 		ID: "C11", Level: "model_checking", Shards: shards16,
-		Rule: "history DFS on the real code with an explorable pool: every ordered pair (thorough: triple over a 12-call core) of public API calls from a 24-call alphabet (codecs, equal/greater/smaller macroblock counts, options that must be reset on reuse, methods, alpha, dithering, source types, decodes, animation) x every assignment of pooled objects to Pool.Get calls with at most 2 reuse events, plus the all-most-recent schedule; oracle: every result equals the same call's result as the first call of a fresh process (computed in child processes) and results already returned are unchanged; a history is non-trivial only if a Get was served from a pool",
+		Rule:   "history DFS on the real code with an explorable pool: every ordered pair (thorough: triple over a 12-call core) of public API calls from a 40-call alphabet (codecs, equal/greater/smaller macroblock counts, options that must be reset on reuse, methods, alpha, dithering, source types, decodes of encoder-made and of generator-made files whose headers carry fields no encoder writes, failing decodes of truncated files, animation) x every assignment of pooled objects to Pool.Get calls with at most 1 (thorough 2) reuse events, plus the all-most-recent schedule; oracle: every result equals the same call's result as the first call of a fresh process (computed in child processes) and results already returned are unchanged; a history is non-trivial only if a Get was served from a pool",
 		Assume: []string{"worker count pinned to 1 (C12 studies worker counts)", "vsync.Pool replaces sync.Pool: the runtime's per-P caches and GC clearing are nondeterminism the harness owns"},
 		Run: func(e *fw.Env, r *fw.Result) {
 			calls := c11Alphabet(e.Seed)
@@ -168,6 +247,9 @@ func init() {
 				r.HarnessError("%v", err)
 				return
 			}
+			for i := range calls {
+				calls[i].build() // pictures and input files are made before the first history
+			}
 			// sanity: fresh policy in this process reproduces the fresh-process results
 			for i := range calls {
 				if d := fw.Digest(calls[i].run()); d != refs[i] {
@@ -181,7 +263,7 @@ func init() {
 				}
 			}
 			if !e.Quick() {
-				core := []int{0, 2, 3, 4, 5, 8, 9, 11, 12, 13, 18, 19}
+				core := []int{0, 2, 3, 4, 5, 8, 9, 11, 12, 13, 18, 19, 23, 24, 25, 30}
 				for _, a := range core {
 					for _, b := range core {
 						for _, c := range core {
@@ -209,7 +291,11 @@ func init() {
 					r.Violate("history ["+strings.Join(names, " -> ")+"]", v+fmt.Sprintf(" [history %v, pool choices %v, all-reuse=%v]", names, picks, all), rp)
 				}
 				seenV := false
-				st := choice.Explore(choice.Config{Bound: 2, Stop: e.Expired}, func(c *choice.Ctx) {
+				poolBound := 1 // quick: every single reuse event, plus the all-reuse schedule below
+				if !e.Quick() {
+					poolBound = 2
+				}
+				st := choice.Explore(choice.Config{Bound: poolBound, Stop: e.Expired}, func(c *choice.Ctx) {
 					v, hits := c11Exec(calls, refs, h, c, false)
 					execs++
 					if hits > 0 {
@@ -272,6 +358,9 @@ func init() {
 			json.Unmarshal(raw, &rp)
 			calls := c11Alphabet(rp.Seed)
 			pin()
+			for i := range calls {
+				calls[i].build() // as in Run: everything is built before the first history
+			}
 			refs, err := c11Refs(e, len(calls))
 			if err != nil {
 				return err.Error()
@@ -291,4 +380,14 @@ func init() {
 			return v
 		},
 	})
+}
+
+// tOrder returns the index of the given transform order in the generator's list.
+func tOrder(ts ...int) int {
+	for i, o := range vp8lgen.TransformOrders {
+		if fmt.Sprint(o) == fmt.Sprint(ts) {
+			return i
+		}
+	}
+	return 0
 }
